@@ -9,7 +9,7 @@
    Theorems: the invariant is preserved by translate and across horizons, and at every stable point every cached literal has the LTLf
    value of its formula in every assignment that violates no emitted constraint (value_full / incremental_full). *)
 From Coq Require Import List Bool Arith ZArith Lia.
-Require Import GenPrelude TheoryPrelude FromTheory TEL Leaf_theory.
+Require Import GenPrelude TheoryPrelude FromTheory TEL TheorySem.
 Import ListNotations.
 Section BTF.
 Variable A : Type.
@@ -171,7 +171,13 @@ Definition entry_ok (h : nat) (todo : list (nat * bf)) (s : st) (f : bf) (k : na
         (if k + n <=? h then In (k, f) todo else In (k, f) todo \/ In (k, f) (pending s)))).
 Definition Inv h todo s := forall f k l d, lookup s f k = Some (l, d) -> entry_ok h todo s f k l d.
 
-(* ---------------- clause tables mean what they should (leaf lemmas over the regenerated tables) ---------------- *)
+(* ---------------- clause tables mean what they should ----------------
+   The three leaf lemmas about the REGENERATED tables are hypotheses of this section (discharged in Props/C03.v with the lemmas of
+   Proofs/Leaf_theory.v), so that this file - whose definitions are extracted for the structural correspondence - compiles whatever the
+   tables say; a change of the source that breaks a table breaks the property theorems, not the executable model. *)
+Hypothesis boolean_clauses_spec : forall op v, holds v (boolean_clauses_gen op) = Bool.eqb (v Llit) (bool_spec op (v Llhs) (v Lrhs)).
+Hypothesis tel_clauses_spec : forall op has v, holds v (tel_clauses_gen op has) = Bool.eqb (v Llit) (tel_spec op has (v Llhs) (v Lrhs) (v Lpre)).
+Hypothesis make_equal_spec : forall v, holds v make_equal_cl_gen = Bool.eqb (v La) (v Lb).
 Lemma ev_nlit T v l : ev T v (nlit l) = negb (ev T v l).
 Proof. destruct l as [[|] x]; unfold ev, nlit; cbn; [reflexivity|now rewrite negb_involutive]. Qed.
 Lemma ev_lconst T v b : v 0 = false -> ev T v (lconst b) = b.
